@@ -69,7 +69,7 @@ class C11(Check):
                    'overlong-wait bound: 10 s reply time-out + 3 s queue time-out + 2 s; in runs with connection '
                    'faults additionally 31 s for a reconnect holding the client lock',
                    'not-released bound: loss visible at the client socket + 1 s receive time-out + 2 s']
-    PROBES = ('c11.same-key-concurrent', 'c11.timeout', 'c11.late-reply', 'fault.peer-close', 'fault.peer-reset',
+    PROBES = ('c11.same-key-concurrent', 'peer.streamed-update', 'c11.timeout', 'c11.late-reply', 'fault.peer-close', 'fault.peer-reset',
               'fault.peer-blackhole', 'c11.user-disconnect', 'c11.disconnect-during-loss', 'c11.reconnect',
               'c11.request-parked')
 
@@ -111,8 +111,23 @@ class C11(Check):
         shape = {'p_switch': rng.choice([0.1, 0.3, 0.6]), 'line_gaps': rng.choice([0, 0, 8, 12, 15]),
                  'seg_bias': rng.choice([1.0, 0.7, 0.3]), 'lat_bias': rng.choice([1.0, 0.8, 0.5]),
                  'activate': rng.random() < 0.6, 'ncallers': ncallers, 'replies': replies,
+                 # an active node streaming updates: the connection is never idle (no rescue by the heartbeat ping)
+                 'stream': rng.choice([None, 0.4, 1.5]),
                  'user_disconnect': round(rng.random() * 6, 3) if rng.random() < (0.5 if faulty else 0.25) else None,
                  'faulty': faulty}
+        if rng.random() < 0.2:
+            # focus: a few requests with one and the same key at (nearly) the same instant, immediate replies,
+            # nothing afterwards which could hide a parked request that is never transmitted, and an active
+            # node streaming updates (so the heartbeat ping never comes to the rescue)
+            kind = rng.choice(['ping', 'ping', 'read'])
+            key = 'x' if kind == 'ping' else 'm:_p0'
+            ops = [{'task': t, 'kind': kind, 'dt': rng.choice([0, 0, 0, 0.001]), 'key': key}
+                   for t in range(ncallers) for _ in range(rng.choice([1, 1, 2]))]
+            rng.shuffle(ops)
+            shape.update(replies=[{'kind': 'ok', 'delay': rng.choice([0, 0, 0.001, 0.01])}
+                                  for _ in range(rng.randrange(1, 4))],
+                         activate=True, stream=rng.choice([0.4, 1.5]), user_disconnect=None, faulty=False, focus=True)
+            faults = []
         return {'shape': shape, 'ops': ops, 'faults': faults}
 
     def shrink_candidates(self, case):
@@ -138,7 +153,7 @@ class C11(Check):
     def main(self, sim, case, ctx):
         shape = case['shape']
         world = ctx['world'] = env.World(sim, shape['seg_bias'], shape['lat_bias'])
-        plan = {'replies': shape['replies']}
+        plan = {'replies': shape['replies'], 'stream': shape.get('stream')}
         pr = ctx['peer'] = simpeer.Peer(world, plan)
         log = ctx['clientlog'] = []
         cl = SecopClient('tcp://simhost:10767', log=ListLogger(log, sim))
@@ -288,7 +303,9 @@ class C11(Check):
         user_dis = [d for d in ctx['disconnects']]
         any_fault = bool(losses or blackholes or case.get('faults') or
                          any(st.get('faults') or st['kind'] in ('none', 'midline') for st in shape['replies']))
-        first_user = min((d['t0'] for d in user_dis), default=float('inf'))
+        # (the final disconnect is made when all callers have returned)
+        t_final = min((d['t0'] for d in user_dis if d.get('final')), default=float('inf'))
+        first_user = min((d['t0'] for d in user_dis if not d.get('final')), default=float('inf'))
         if len(pr.conns) > 1:
             bump('c11.reconnect')
         if any(d for d in user_dis if not d.get('final') and any(abs(d['t0'] - t) < 1.5 for t, _ in losses)):
@@ -300,25 +317,55 @@ class C11(Check):
                         and a['t0'] < b['t1'] and b['t0'] < a['t1']:
                     bump('c11.same-key-concurrent')
                     break
-        # a request that reached the peer out of caller order for the same key means it was parked
-        delivered = {}
+        # a request which reached the peer only when the reply to an earlier request with the same key had been
+        # sent, although it was issued before that, had been parked by the tx thread
         for r in calls:
-            kind, result = r['result'][0], r['result']
-            wait = r['t1'] - r['t0']
-            got_uid = None
-            if kind == 'ok':
-                data = result[3]
+            q = arrived.get(r['uid'])
+            if q is None:
+                continue
+            for o in calls:
+                so = sent_for.get(o['uid'])
+                if o is not r and so is not None and o['op']['kind'] == r['op']['kind'] and \
+                        o['op']['key'] == r['op']['key'] and o['seq0'] < r['seq0'] and r['t0'] <= so['t'] <= q['t'] \
+                        and so['seq'] < q['seq']:
+                    bump('c11.request-parked')
+                    break
+        delivered = {}
+
+        def reply_uid(r):
+            result = r['result']
+            if result[0] == 'ok':
                 try:
-                    got_uid = data[1].get('uid')
+                    return result[3][1].get('uid')
                 except Exception:   # noqa
-                    got_uid = None
-            elif result[3]:     # SECoP error rebuilt from an error reply
+                    return None
+            if result[3]:     # SECoP error rebuilt from an error reply
                 txt = result[2]
                 if 'failed uid' in txt:
                     try:
-                        got_uid = int(txt.split('failed uid')[1].split()[0].strip('"\'),'))
+                        return int(txt.split('failed uid')[1].split()[0].strip('"\'),'))
                     except ValueError:
-                        got_uid = None
+                        return None
+            return None
+
+        def displaced_by_late(o, seen=()):
+            """<o> was released with a reply which is not its own, and the root of that chain is the late reply
+            to an abandoned request: then the reply to <o> itself is left over for the next request with the same
+            key (SECoP has no request ids) - a consequence of the late reply, not a mix-up of the client"""
+            g = reply_uid(o)
+            if g is None or g == o['uid'] or o['uid'] in seen:
+                return False
+            w = by_uid.get(g)
+            if w is None:
+                return False
+            sw = sent_for.get(g)
+            if (sw is not None and sw['t'] > w['t1']) or (w['result'][0] == 'exc' and w['result'][1] == 'TimeoutError'):
+                return True
+            return displaced_by_late(w, seen + (o['uid'],))
+        for r in calls:
+            kind, result = r['result'][0], r['result']
+            wait = r['t1'] - r['t0']
+            got_uid = reply_uid(r)
             if got_uid is not None:
                 owner = by_uid.get(got_uid)
                 s = sent_for.get(got_uid)
@@ -328,13 +375,18 @@ class C11(Check):
                     # an unknown action is matched with *any* unmatched reply (documented as experimental, one
                     # at a time): unsolicited replies of the peer make its attribution undefined
                     fuzzy = r['op']['kind'] == 'foo' and any(st['kind'] == 'unsolicited' for st in shape['replies'])
-                    if r['op']['kind'] == 'foo' and any(o['op']['kind'] == 'foo' and o['result'][0] == 'exc' and
-                                                        o['result'][1] == 'TimeoutError' for o in calls):
-                        fuzzy = True   # all unknown actions share one table entry; an abandoned one shifts them all
+                    if r['op']['kind'] == 'foo' and any(o['result'][0] == 'exc' and o['result'][1] == 'TimeoutError'
+                                                        for o in calls):
+                        # all unknown actions share one table entry and take *any* unmatched reply: the late
+                        # reply to an abandoned request (of any kind) is taken by one of them and shifts the rest
+                        fuzzy = True
                     # the owner gave up (time-out): its abandoned table entry and this reply are unrelated to
                     # what the statement covers (SECoP has no request ids)
                     if owner is not None and owner['result'][0] == 'exc' and owner['result'][1] == 'TimeoutError':
                         late = True
+                    if not late and owner is not None and displaced_by_late(owner):
+                        late = True
+                        bump('c11.late-reply-chain')
                     if late or fuzzy:
                         if late:
                             bump('c11.late-reply')
@@ -358,7 +410,7 @@ class C11(Check):
                     # was the peer reachable all the time?
                     disturbed = any(r['t0'] - 1 <= t <= r['t1'] for t, _ in losses) or \
                         any(t <= r['t1'] for t in blackholes) or first_user <= r['t1'] or \
-                        any(c.lost_at is not None and c.lost_at <= r['t1'] for c in pr.conns)
+                        any(c.lost_at is not None and c.lost_at <= r['t1'] and c.lost_at < t_final for c in pr.conns)
                     q = arrived.get(r['uid'])
                     # a same-key request that reached the peer, was not answered and whose caller gave up less
                     # than 2.5 s before this request started (the rx loop cleans up once per second) may
@@ -379,6 +431,19 @@ class C11(Check):
                         ao = arrived.get(o['uid'])
                         if unanswered and ao is not None and ao['t'] >= o['t1'] - 0.001:
                             disturbed = True     # sent only after its caller had given up: blocks the key
+                    # every request with the same key got its own reply in time, the last of them well before this
+                    # one gave up: the reply must have requeued the parked request (nothing is left to block it)
+                    hard = any(r['t0'] - 1 <= t <= r['t1'] for t, _ in losses) or \
+                        any(t <= r['t1'] for t in blackholes) or first_user <= r['t1'] or \
+                        any(c.lost_at is not None and c.lost_at <= r['t1'] and c.lost_at < t_final for c in pr.conns)
+                    blockers = [o for o in calls if o is not r and samekey(o) and o['t0'] <= r['t1']]
+                    if q is None and not hard and disturbed and \
+                            all(reply_uid(o) == o['uid'] and o['t1'] < r['t1'] - 2.5 for o in blockers):
+                        res.append(Violation('C11.lost-request', r['op']['kind'] + '|parked-forever',
+                                             f'caller {r["task"]} uid {r["uid"]} ({r["op"]}) timed out after {wait:.2f} s: '
+                                             f'the request was never sent to the peer although the connection was up and '
+                                             f'all {len(blockers)} other requests with the same key had got their own replies '
+                                             f'(the last at t={max((o["t1"] for o in blockers), default=0):.3f})'))
                     if q is None and not disturbed:
                         res.append(Violation('C11.lost-request', r['op']['kind'],
                                              f'caller {r["task"]} uid {r["uid"]} ({r["op"]}) timed out after {wait:.2f} s: '
